@@ -38,6 +38,20 @@ def runC12 (fields : List String) (obs : String) : String × String × String :=
   let eqv (m : String) := (m, if obs == m then "ok" else "bad:expected " ++ m, "-")
   let res (model spec region : String) := (model, if obs == spec then "ok" else "bad:expected " ++ spec, if model == spec then "-" else region)
   match fields with
+  | ["optempty", _] => eqv "empty"
+  | ["convopt", k1n, k2n, ot] =>
+    -- an option kind `k2?` takes a value exactly as `k2` does, or refuses it: the pinned commit accepts only
+    -- the source kinds it regards as implicitly convertible (which pairs those are is not modelled), so a
+    -- refusal is accepted and a value must be the faithful one
+    (match kindOfName k1n, kindOfName k2n with
+     | some k1, some k2 =>
+       (match parseOperand k1 ot with
+        | some (.scalar v) =>
+          let spec := match convertScalar hwConv k1 k2 v with | .ok y => operandText k2 (.scalar y) | .error _ => "err"
+          let model := match convertScalarImpl hwConv k1 k2 v with | .ok y => operandText k2 (.scalar y) | .error _ => "err"
+          if obs == "err" then ("err", "ok", "-") else res model spec "C12-D2"
+        | _ => ("bad-case", "bad-case", "-"))
+     | _, _ => ("bad-case", "bad-case", "-"))
   | ["conv", k1n, k2n, ot] =>
     match kindOfName k1n, kindOfName k2n with
     | some k1, some k2 =>
